@@ -411,6 +411,49 @@ func (e *Env) Apply(op *Op) []string {
 		return []string{"q ok ids=" + strings.Join(ids, ",")}
 	case "dumpfile":
 		return []string{"dumped"}
+	case "keys":
+		return []string{"keys ok"}
+	case "facts":
+		op.Raw = e.factLines()
+		return []string{"facts ok"}
+	case "verify":
+		if e.f == nil {
+			return []string{"noimg"}
+		}
+		ls, _, _ := e.doVerify(op.V)
+		return ls
+	case "signedby":
+		if e.f == nil {
+			return []string{"noimg"}
+		}
+		return e.doSignedBy(op.V, op.Any)
+	case "sign":
+		if e.f == nil {
+			return []string{"noimg"}
+		}
+		ls, blobs, now, fp, _ := e.doSign(op.S)
+		op.Blobs, op.Now, op.FP = blobs, now, fp
+		return ls
+	case "patch":
+		if e.f == nil {
+			return []string{"noimg"}
+		}
+		b := e.storeBytes()
+		for _, p := range op.Sites {
+			if p.Off >= 0 && int(p.Off)+len(p.B) <= len(b) {
+				copy(b[p.Off:], p.B)
+			}
+		}
+		e.Close()
+		e.backend = "buf"
+		e.buf = sif.NewBuffer(b)
+		f, err := sif.LoadContainer(e.buf)
+		if err != nil {
+			e.f = nil
+			return []string{"res " + errClass(err)}
+		}
+		e.f = f
+		return []string{"res ok"}
 	case "mkimg":
 		// the Lean encoder writes the file now, so that the library can load it next
 		e.fileSeq++
